@@ -5,7 +5,9 @@ package main
 import (
 	"fmt"
 	"go/constant"
+	"go/token"
 	"go/types"
+	"strings"
 
 	"golang.org/x/tools/go/ssa"
 )
@@ -180,6 +182,23 @@ func checkMainExit(c *Ctx, rule string) {
 		return
 	}
 	c.Analysed("cmd/emerge.main")
+	// main may hand the whole job to a function whose result is the exit status (os.Exit(run(...))): that function's returns
+	// are then the exits, and its error branches are what the rule is about
+	asExit := false
+	for _, b := range fn.Blocks {
+		for _, in := range b.Instrs {
+			if call, ok := in.(*ssa.Call); ok && staticCalleeName(call) == "os.Exit" {
+				if inner, ok := call.Call.Args[0].(*ssa.Call); ok {
+					if g := inner.Call.StaticCallee(); g != nil && len(g.Blocks) > 0 && strings.HasPrefix(fnPkgPath(g), modPath) && g.Signature.Results().Len() == 1 {
+						fn = g
+						asExit = true
+						c.Analysed(shortFn(g))
+					}
+				}
+			}
+		}
+	}
+	mainFn := c.mainFunc()
 	nErrIfs := 0
 	for _, b := range fn.Blocks {
 		if _, ok := b.Instrs[len(b.Instrs)-1].(*ssa.Panic); ok {
@@ -214,6 +233,7 @@ func checkMainExit(c *Ctx, rule string) {
 		// explore the error branch; a block with os.Exit is terminal
 		what := describeErrSource(ev)
 		bad := ""
+		undecidedStatus := false
 		seen := map[*ssa.BasicBlock]bool{}
 		var walk func(x *ssa.BasicBlock)
 		walk = func(x *ssa.BasicBlock) {
@@ -227,8 +247,21 @@ func checkMainExit(c *Ctx, rule string) {
 				}
 				return
 			}
-			switch x.Instrs[len(x.Instrs)-1].(type) {
+			switch last := x.Instrs[len(x.Instrs)-1].(type) {
 			case *ssa.Return:
+				if asExit && len(last.Results) == 1 {
+					sts, ok := constStatuses(last.Results[0], 0)
+					if !ok {
+						undecidedStatus = true
+						return
+					}
+					for _, st := range sts {
+						if st == 0 {
+							bad = "returns exit status 0"
+						}
+					}
+					return
+				}
 				bad = "falls out of main (exit status 0)"
 				return
 			case *ssa.Panic:
@@ -240,6 +273,10 @@ func checkMainExit(c *Ctx, rule string) {
 			}
 		}
 		walk(start)
+		if bad == "" && undecidedStatus {
+			c.Undecided(rule, "error branch of main ends in a non-zero exit: "+what, ifi.Pos(), "the status returned on this branch is not a constant this rule can follow")
+			continue
+		}
 		c.Check(rule, "error branch of main ends in a non-zero exit: "+what, ifi.Pos(), bad == "", "the branch taken when "+what+" fails "+bad)
 		// a message is printed: the error value flows into some call before the exit
 		msg := false
@@ -264,11 +301,109 @@ func checkMainExit(c *Ctx, rule string) {
 		c.Lost(rule, "error tests in main")
 	}
 	// success path: falling out of main or os.Exit(0) only; every explicit Exit status is a constant
-	for _, b := range fn.Blocks {
-		if _, isConst, _, found := exitCallIn(b); found && !isConst {
-			c.Fail(rule, "exit status is a constant", b.Instrs[0].Pos(), "os.Exit is called with a computed status")
+	for _, f := range []*ssa.Function{mainFn, fn} {
+		if f == nil || (f == fn && fn == mainFn) {
+			if f == nil {
+				continue
+			}
+		}
+		for _, b := range f.Blocks {
+			if _, isConst, idx, found := exitCallIn(b); found && !isConst {
+				arg := b.Instrs[idx].(*ssa.Call).Call.Args[0]
+				if _, ok := constStatuses(arg, 0); ok {
+					continue // the status is the result of a function all of whose returns are constants
+				}
+				c.Undecided(rule, "exit status is a constant", b.Instrs[0].Pos(), "os.Exit is called with a computed status that does not resolve to constants")
+			}
+		}
+		if fn == mainFn {
+			break
 		}
 	}
+}
+
+// constStatuses resolves an exit status to the constants it can be: a constant, a phi of such, the result of a function
+// (or closure) all of whose returns are such, or a parameter of it, taken from the argument at this call.
+func constStatuses(v ssa.Value, depth int) ([]int64, bool) {
+	if depth > 4 {
+		return nil, false
+	}
+	switch x := v.(type) {
+	case *ssa.Const:
+		if x.Value == nil {
+			return nil, false
+		}
+		n, ok := constant.Int64Val(constant.ToInt(x.Value))
+		return []int64{n}, ok
+	case *ssa.Convert:
+		return constStatuses(x.X, depth+1)
+	case *ssa.ChangeType:
+		return constStatuses(x.X, depth+1)
+	case *ssa.Phi:
+		var out []int64
+		for _, e := range x.Edges {
+			r, ok := constStatuses(e, depth+1)
+			if !ok {
+				return nil, false
+			}
+			out = append(out, r...)
+		}
+		return out, true
+	case *ssa.Call:
+		var g *ssa.Function
+		if sc := x.Call.StaticCallee(); sc != nil {
+			g = sc
+		} else if mc, ok := x.Call.Value.(*ssa.MakeClosure); ok {
+			g, _ = mc.Fn.(*ssa.Function)
+		} else if u, ok := x.Call.Value.(*ssa.UnOp); ok && u.Op == token.MUL {
+			// a closure kept in a local variable
+			if al, ok := u.X.(*ssa.Alloc); ok {
+				for _, r := range *al.Referrers() {
+					if st, ok := r.(*ssa.Store); ok && st.Addr == ssa.Value(al) {
+						if mc, ok := st.Val.(*ssa.MakeClosure); ok {
+							g, _ = mc.Fn.(*ssa.Function)
+						}
+					}
+				}
+			}
+		}
+		if g == nil || len(g.Blocks) == 0 || g.Signature.Results().Len() != 1 {
+			return nil, false
+		}
+		var out []int64
+		for _, b := range g.Blocks {
+			ret, ok := b.Instrs[len(b.Instrs)-1].(*ssa.Return)
+			if !ok {
+				continue
+			}
+			rv := ret.Results[0]
+			if p, ok := rv.(*ssa.Parameter); ok {
+				pi := -1
+				for i, q := range g.Params {
+					if q == p {
+						pi = i
+					}
+				}
+				if pi < 0 || pi >= len(x.Call.Args) {
+					return nil, false
+				}
+				rv = x.Call.Args[pi]
+				r, ok := constStatuses(rv, depth+1)
+				if !ok {
+					return nil, false
+				}
+				out = append(out, r...)
+				continue
+			}
+			r, ok := constStatuses(rv, depth+1)
+			if !ok {
+				return nil, false
+			}
+			out = append(out, r...)
+		}
+		return out, len(out) > 0
+	}
+	return nil, false
 }
 
 func describeErrSource(v ssa.Value) string {
